@@ -278,48 +278,88 @@ func c09ArgByType(w *World, r *Report) {
 	sort.Strings(tn)
 	for _, t := range tn {
 		m := w.Method("parse", t, "Parse")
-		mfd, mp := w.FuncDecl(m)
-		acc := acceptedStrings(mp, mfd)
+		mfd, _ := w.FuncDecl(m)
+		acc := acceptedStrings(w, w.SSAFunc(m), func(k string) bool { return strings.Contains(k, "arg") })
 		sort.Strings(acc)
 		r.Check(strings.Join(acc, ",") == strings.Join(sets[t], ","), "R09.3", t+".Parse accepted words", mfd.Pos(), strings.Join(acc, ","),
 			"accepts {"+strings.Join(acc, ",")+"}, RFC 6020 allows {"+strings.Join(sets[t], ",")+"}")
 	}
 }
 
-// acceptedStrings: constants compared with == in the condition of the if whose
-// body returns nil.
-func acceptedStrings(p *packagesPackage, fd *ast.FuncDecl) []string {
-	var out []string
-	for _, s := range fd.Body.List {
-		is, ok := s.(*ast.IfStmt)
-		if !ok {
-			continue
+// acceptedStrings: the words for which a Parse method returns nil, from the
+// condition of its nil exits: every string the argument is compared with is
+// tried, and one more that equals none of them.
+func acceptedStrings(w *World, f *ssa.Function, subjOK func(key string) bool) []string {
+	if len(ssaLoops(f)) > 0 {
+		panic(undecided{funcKey(f) + ": loop in a closed-set Parse"})
+	}
+	sym := NewSym(w)
+	sym.Expand = true
+	accept := pcZ
+	for _, row := range sym.retTable(f, 0) {
+		if isNilConst(row.val) {
+			accept = pcOrF(accept, row.cond)
 		}
-		rets := returnsIn(is.Body)
-		if len(rets) != 1 || len(rets[0].Results) != 1 || !isNilIdent(p, rets[0].Results[0]) {
-			continue
+	}
+	subj := ""
+	words := map[string]bool{}
+	constOf := func(a *pcAtom) (string, string, bool) {
+		if a.op != token.EQL || a.x == nil || a.y == nil {
+			return "", "", false
 		}
-		var walk func(e ast.Expr) bool
-		walk = func(e ast.Expr) bool {
-			e = ast.Unparen(e)
-			be, ok := e.(*ast.BinaryExpr)
-			if !ok {
-				return false
-			}
-			switch be.Op {
-			case token.LOR:
-				return walk(be.X) && walk(be.Y)
-			case token.EQL:
-				if v, ok := ConstStr(p, be.Y); ok {
-					out = append(out, v)
-					return true
+		for _, pr := range [][2]ssa.Value{{a.x, a.y}, {a.y, a.x}} {
+			if c, ok := pr[0].(*ssa.Const); ok && c.Value != nil && c.Value.Kind() == constant.String {
+				k := a.yk
+				if pr[0] == a.y {
+					k = a.xk
 				}
+				return constant.StringVal(c.Value), k, true
 			}
-			return false
 		}
-		if !walk(is.Cond) {
-			panic(undecided{fd.Name.Name + ": accept condition not a disjunction of equalities"})
+		return "", "", false
+	}
+	for _, a := range accept.atoms() {
+		if word, k, ok := constOf(a); ok {
+			if subj != "" && subj != k {
+				panic(undecided{funcKey(f) + ": words compared with more than one value"})
+			}
+			subj = k
+			words[word] = true
 		}
+	}
+	if !subjOK(subj) {
+		panic(undecided{funcKey(f) + ": the words are not compared with the value to be judged (" + subj + ")"})
+	}
+	var out []string
+	try := func(word string, other bool) bool {
+		res, ok := pcEvalFree(accept, func(a *pcAtom) (bool, bool) {
+			if c, _, isC := constOf(a); isC {
+				return !other && c == word, true
+			}
+			if a.subj == "len("+subj+")" {
+				n := int64(len(word))
+				if other {
+					n = 1 << 20
+				}
+				return a.set.contains(n), true
+			}
+			return false, false
+		})
+		if !ok {
+			panic(undecided{funcKey(f) + ": acceptance depends on more than the argument's text"})
+		}
+		return res
+	}
+	for wd := range words {
+		if try(wd, false) {
+			out = append(out, wd)
+		}
+	}
+	if try("", true) {
+		out = append(out, "‹any other word›")
+	}
+	if !words[""] && try("", false) {
+		out = append(out, "‹empty›")
 	}
 	return out
 }
@@ -503,36 +543,9 @@ func c09CheckModule(w *World, r *Report) {
 }
 
 func c09RevisionOrder(w *World, r *Report) {
-	f := w.Func("parse", "checkRevisionOrder")
-	fd, p := w.FuncDecl(f)
-	after, equal := false, false
-	ast.Inspect(fd.Body, func(n ast.Node) bool {
-		is, ok := n.(*ast.IfStmt)
-		if !ok {
-			return true
-		}
-		rets := returnsIn(is.Body)
-		errRet := len(rets) >= 1 && len(rets[0].Results) == 1 && !isNilIdent(p, rets[0].Results[0])
-		if ce, ok := ast.Unparen(is.Cond).(*ast.CallExpr); ok && errRet {
-			if c := calleeOf(p, ce); c != nil && c.FullName() == "(time.Time).After" {
-				// receiver is this revision, argument the previous one
-				after = true
-			}
-		}
-		if be, ok := ast.Unparen(is.Cond).(*ast.BinaryExpr); ok && be.Op == token.EQL && errRet {
-			if t := p.TypesInfo.TypeOf(be.X); t != nil && t.String() == "time.Time" {
-				equal = true
-			}
-		}
-		if ce, ok := ast.Unparen(is.Cond).(*ast.CallExpr); ok && errRet {
-			if c := calleeOf(p, ce); c != nil && c.FullName() == "(time.Time).Equal" {
-				equal = true
-			}
-		}
-		return true
-	})
-	r.Check(after, "R09.6", "checkRevisionOrder later date", fd.Pos(), "thisRev.After(prev) ⇒ error", "a revision later than its predecessor is no longer rejected")
-	r.Check(equal, "R09.6", "checkRevisionOrder equal date", fd.Pos(), "thisRev == prev ⇒ error", "two revisions with the same date are no longer rejected (order must be strictly descending)")
+	fs := c09RevisionFacts(w)
+	r.Check(fs.afterWhy == "", "R09.6", "checkRevisionOrder later date", fs.pos, "thisRev.After(prev) ⇒ error", "a revision later than its predecessor is no longer rejected"+fs.afterWhy)
+	r.Check(fs.equalWhy == "", "R09.6", "checkRevisionOrder equal date", fs.pos, "thisRev == prev ⇒ error", "two revisions with the same date are no longer rejected (order must be strictly descending)"+fs.equalWhy)
 }
 
 func c09CheckCardinality(w *World, r *Report) {
@@ -1066,67 +1079,176 @@ func c09StatelessParse(w *World, r *Report) {
 // end of every iteration which parsed a revision date, holds that date; on
 // other iterations it is carried over unchanged.
 func c09RevisionChain(w *World, r *Report) {
+	fs := c09RevisionFacts(w)
+	r.Check(fs.chainWhy == "", "R09.12", "checkRevisionOrder compares each revision with its predecessor", fs.phiPos, "remembered date = the date just parsed, on every revision iteration", fs.chainWhy+": order violations and duplicates among later revisions are accepted (e.g. 2020-06-01 / 2018-01-15 / 2019-03-01)")
+}
+
+type c09RevFacts struct {
+	pos, phiPos        token.Pos
+	chainWhy           string // R09.12
+	afterWhy, equalWhy string // R09.6 ("" = holds; else a reason, appended to the message)
+}
+
+// c09RevisionFacts reads checkRevisionOrder (and the loop-free helpers it
+// hands the work to) as: a loop with a remembered date; on every iteration
+// that parses a revision date, the path that goes on to the next iteration
+// remembers exactly that date (R09.12) and is only taken when the date is
+// neither after nor equal to the remembered one (R09.6).
+func c09RevisionFacts(w *World) c09RevFacts {
 	f := w.SSAFunc(w.Func("parse", "checkRevisionOrder"))
 	if f == nil {
 		panic(undecided{"parse.checkRevisionOrder"})
 	}
-	loops := ssaLoops(f)
-	checked := false
-	for _, l := range loops {
-		body := l.body()
-		// the parsed date of this iteration
-		var parsed ssa.Value
-		var parseBlock *ssa.BasicBlock
-		for b := range body {
+	out := c09RevFacts{pos: f.Pos(), phiPos: f.Pos()}
+	sym := NewSym(w)
+	sym.Expand = true
+	isParse0 := func(v ssa.Value) bool {
+		ex, ok := v.(*ssa.Extract)
+		if !ok || ex.Index != 0 {
+			return false
+		}
+		c, ok := ex.Tuple.(*ssa.Call)
+		return ok && c.Call.StaticCallee() != nil && c.Call.StaticCallee().String() == "time.Parse"
+	}
+	var reachesParse func(fn *ssa.Function, depth int) bool
+	reachesParse = func(fn *ssa.Function, depth int) bool {
+		if fn == nil {
+			return false
+		}
+		if fn.String() == "time.Parse" {
+			return true
+		}
+		if depth > 3 || fn.Blocks == nil || !strings.HasPrefix(pkgPathOf(fn), modPath) {
+			return false
+		}
+		for _, b := range fn.Blocks {
 			for _, in := range b.Instrs {
-				if ex, ok := in.(*ssa.Extract); ok && ex.Index == 0 {
-					if c, ok := ex.Tuple.(*ssa.Call); ok && c.Call.StaticCallee() != nil && c.Call.StaticCallee().String() == "time.Parse" {
-						parsed, parseBlock = ex, b
-					}
+				if c, ok := in.(*ssa.Call); ok && reachesParse(c.Call.StaticCallee(), depth+1) {
+					return true
 				}
 			}
 		}
-		if parsed == nil {
+		return false
+	}
+	checked := false
+	for _, l := range ssaLoops(f) {
+		body := l.body()
+		var parseBlock *ssa.BasicBlock
+		for b := range body {
+			for _, in := range b.Instrs {
+				if c, ok := in.(*ssa.Call); ok && reachesParse(c.Call.StaticCallee(), 0) {
+					parseBlock = b
+				}
+			}
+		}
+		if parseBlock == nil {
 			continue
 		}
-		// the loop-carried variable it is compared with
 		for _, in := range l.Header.Instrs {
 			phi, ok := in.(*ssa.Phi)
 			if !ok || phi.Type().String() != "time.Time" {
 				continue
 			}
-			compared := false
-			for _, ref := range *phi.Referrers() {
-				switch x := ref.(type) {
-				case *ssa.Call:
-					if x.Call.StaticCallee() != nil && (nm(x.Call.StaticCallee()) == "After" || nm(x.Call.StaticCallee()) == "Before" || nm(x.Call.StaticCallee()) == "Equal") {
-						compared = true
-					}
-				case *ssa.BinOp:
-					compared = true
-				}
-			}
-			if !compared {
-				continue
-			}
 			checked = true
-			ok2, why := true, ""
+			out.phiPos = phi.Pos()
+			isThis := func(v ssa.Value, ctx *symCtx) bool {
+				os := sym.Origins(v, ctx, 0)
+				for _, o := range os {
+					if !isParse0(o.v) {
+						return false
+					}
+				}
+				return len(os) > 0
+			}
+			isPrev := func(v ssa.Value, ctx *symCtx) bool {
+				for _, o := range sym.Origins(v, ctx, 0) {
+					if o.v != ssa.Value(phi) {
+						return false
+					}
+				}
+				return true
+			}
+			// an atom that compares this date with the remembered one: its truth value when
+			// this date is later (ord = 1), the same (0) or earlier (-1)
+			orderAtom := func(a *pcAtom, ord int) (val, known bool) {
+				rel := func(x, y ssa.Value) int { // +1: (this, prev); -1: (prev, this); 0: something else
+					switch {
+					case isThis(x, a.ctx) && isPrev(y, a.ctx):
+						return 1
+					case isPrev(x, a.ctx) && isThis(y, a.ctx):
+						return -1
+					}
+					return 0
+				}
+				timeCall := func(v ssa.Value) (string, int) {
+					c, ok := v.(*ssa.Call)
+					if !ok || c.Call.StaticCallee() == nil || len(c.Call.Args) != 2 {
+						return "", 0
+					}
+					return c.Call.StaticCallee().String(), rel(c.Call.Args[0], c.Call.Args[1])
+				}
+				if a.op == token.ILLEGAL && a.subj == "" {
+					if name, d := timeCall(a.v); d != 0 {
+						switch name {
+						case "(time.Time).After":
+							return ord*d > 0, true
+						case "(time.Time).Before":
+							return ord*d < 0, true
+						case "(time.Time).Equal":
+							return ord == 0, true
+						}
+					}
+				}
+				if a.op == token.EQL && a.x != nil && a.y != nil && a.x.Type().String() == "time.Time" && rel(a.x, a.y) != 0 {
+					return ord == 0, true
+				}
+				if bo, ok := a.v.(*ssa.BinOp); ok && a.subj != "" {
+					for _, side := range []ssa.Value{bo.X, bo.Y} {
+						if name, d := timeCall(side); d != 0 && name == "(time.Time).Compare" {
+							return a.set.contains(int64(ord * d)), true
+						}
+					}
+				}
+				return false, false
+			}
 			for _, lt := range l.Latches {
 				v := phiEdge(phi, lt)
-				if parseBlock.Dominates(lt) {
-					if v != parsed {
-						ok2, why = false, "after an iteration that parsed a revision date the remembered date is `"+v.String()+"`, not that date"
+				if !parseBlock.Dominates(lt) {
+					if v != ssa.Value(phi) {
+						out.chainWhy = "an iteration without a revision statement changes the remembered date"
 					}
-				} else if v != ssa.Value(phi) {
-					ok2, why = false, "an iteration without a revision statement changes the remembered date"
+					continue
+				}
+				latchCond := sym.PathCond(l.Header, lt, nil)
+				for _, o := range sym.Origins(v, nil, 0) {
+					full := pcAndF(latchCond, o.cond)
+					if !pcSat(full) {
+						continue
+					}
+					if !isParse0(o.v) {
+						out.chainWhy = "after an iteration that parsed a revision date the remembered date is `" + o.v.String() + "`, not that date"
+						continue
+					}
+					for _, ord := range []int{1, 0} {
+						reached, decided := pcEvalFree(full, func(a *pcAtom) (bool, bool) { return orderAtom(a, ord) })
+						if decided && !reached {
+							continue
+						}
+						why := ": the loop can go on to the next revision although this date is not earlier than the remembered one"
+						if ord == 1 {
+							out.afterWhy = why
+						} else {
+							out.equalWhy = why
+						}
+					}
 				}
 			}
-			r.Check(ok2, "R09.12", "checkRevisionOrder compares each revision with its predecessor", phi.Pos(), "remembered date = the date just parsed, on every revision iteration", why+": order violations and duplicates among later revisions are accepted (e.g. 2020-06-01 / 2018-01-15 / 2019-03-01)")
 		}
 	}
 	if !checked {
 		panic(undecided{"checkRevisionOrder: loop-carried revision date not found"})
 	}
+	return out
 }
 
 // c09CardinalityDecision evaluates the loop of checkCardinality that walks the
